@@ -299,6 +299,13 @@ class Report:
             print("KNOWN-FINDING: property=%s %s (%s; hit %d times in this run)" %
                   (self.prop, fid, findings[fid]["what"], cnt))
         seen = set()
+        if os.environ.get("VERIF_DEBUG"):
+            groups = {}
+            for key, desc, replay in self.violations:
+                gk = ":".join(key.split(":")[:3])
+                groups.setdefault(gk, []).append(key)
+            for gk, ks in sorted(groups.items()):
+                log("DEBUG violations %-60s %5d  e.g. %s" % (gk, len(ks), ks[0]))
         for i, (key, desc, replay) in enumerate(self.violations):
             if i >= 5:
                 break
